@@ -181,3 +181,69 @@ Example C07_ex_swap_run :
              (swap_run VmD v_old (compiled v_old) v_new (compiled v_new) [[];[];[]] [[];[];[]])
     = Some ([Some 1; Some 2; Some 3], [Some 8; Some 13; Some 18], [Some 6; Some 6; Some 6])%Z.
 Proof. exact v_swap_run. Qed.
+
+(* ---- MIXED edits of voice programs (voices removed AND added in one swap, e.g. removed at one position and another added at a different
+   position), via C08_survivors_mixed_unambiguous ----
+   `aligned l1 l2 same del ins` (Lmmm/VoicesMixed.v): l1 and l2 are interleavings of `same` (the untouched elements, same relative order)
+   with the removed elements `del` resp. the added elements `ins`;  `skels_of p es`: the skeleton children published by the voices es;
+   `share a n` (StateTree/Indep.v): the state layouts a and n have an identical sub-layout with cells at equal depth.
+   Hypothesis: the added voices share no state cell with any old voice (otherwise a chain of partial matches may beat the identical pair of
+   an untouched voice: finding C08/F29, C08_survivors_mixed_refuted). *)
+From Mimium Require Import StateTree.Indep Lmmm.VoicesMixed.
+
+(* every voice of the new program whose skeleton has cells and is the skeleton of some old voice is carried from SOME old voice with that
+   skeleton; if that old voice is the same expression, the channel continues *)
+Theorem C07_voices_mixed : forall d p1 cp1 p2 cp2 same del ins j e c t0 rows1 m1 t1 rows2,
+  compile p1 = Some cp1 -> wf_prog p1 = true -> compile p2 = Some cp2 -> wf_prog p2 = true ->
+  voice_prog p1 = true -> voice_prog p2 = true ->
+  p_funs p2 = p_funs p1 -> p_inputs p2 = p_inputs p1 ->
+  aligned (p_outs p1) (p_outs p2) same del ins ->
+  (forall a n, In a (skels_of p1 (p_outs p1)) -> In n (skels_of p1 ins) -> share a n = false) ->
+  nth_error (p_outs p2) j = Some e -> voice_skel p2 j = Some c -> (0 < count_cells c)%N -> In c (skels_of p1 (p_outs p1)) ->
+  rows_ok p1 rows1 -> final_state d p1 cp1 t0 rows1 (init_state d cp1) = Some m1 -> rows_ok p1 rows2 ->
+  exists i off1 off2,
+    voice_skel p1 i = Some c /\ voice_range p1 i = Some (off1, size c) /\ voice_range p2 j = Some (off2, size c) /\
+    voice_carried (published_skeleton cp1) (published_skeleton cp2) off1 off2 (size c) /\
+    (nth_error (p_outs p1) i = Some e -> continues d p1 cp1 p2 cp2 m1 t1 rows2 i j).
+Proof. exact voices_mixed. Qed.
+
+(* "untouched call sites continue" for mixed edits: with pairwise distinct old skeletons, every voice of the new program whose skeleton is
+   the skeleton of an old voice IS that old voice and continues from its own pre-swap state *)
+Theorem C07_untouched_voices_continue_mixed : forall d p1 cp1 p2 cp2 same del ins j e c t0 rows1 m1 t1 rows2,
+  compile p1 = Some cp1 -> wf_prog p1 = true -> compile p2 = Some cp2 -> wf_prog p2 = true ->
+  voice_prog p1 = true -> voice_prog p2 = true ->
+  p_funs p2 = p_funs p1 -> p_inputs p2 = p_inputs p1 ->
+  aligned (p_outs p1) (p_outs p2) same del ins ->
+  (forall a n, In a (skels_of p1 (p_outs p1)) -> In n (skels_of p1 ins) -> share a n = false) ->
+  NoDup (voice_skels p1) ->
+  nth_error (p_outs p2) j = Some e -> voice_skel p2 j = Some c -> (0 < count_cells c)%N -> In c (skels_of p1 (p_outs p1)) ->
+  rows_ok p1 rows1 -> final_state d p1 cp1 t0 rows1 (init_state d cp1) = Some m1 -> rows_ok p1 rows2 ->
+  exists i, nth_error (p_outs p1) i = Some e /\ continues d p1 cp1 p2 cp2 m1 t1 rows2 i j.
+Proof. exact voices_mixed_distinct. Qed.
+
+(* satisfiability: w_old = (a(1), b(2)), w_new = (b(2), c(3)) with a = {self, mem, delay 1}, b = {self, mem}, c = {delay 7} *)
+Example C07_ex_mixed_progs :
+  voice_prog w_old = true /\ voice_prog w_new = true /\ wf_prog w_old = true /\ wf_prog w_new = true /\
+  compile w_old = Some (compiled w_old) /\ compile w_new = Some (compiled w_new) /\
+  voice_skels w_old = [[FnCall [Feed 1%N; Mem 1%N; Delay 1%N]]; [FnCall [Feed 1%N; Mem 1%N]]] /\
+  voice_skels w_new = [[FnCall [Feed 1%N; Mem 1%N]]; [FnCall [Delay 7%N]]].
+Proof. exact w_progs. Qed.
+Example C07_ex_mixed_aligned :
+  aligned (p_outs w_old) (p_outs w_new) [ECall 2%N [ELit 2]] [ECall 1%N [ELit 1]] [ECall 3%N [ELit 3]].
+Proof. exact w_aligned. Qed.
+Example C07_ex_mixed_fresh :
+  forall a n, In a (skels_of w_old (p_outs w_old)) -> In n (skels_of w_old [ECall 3%N [ELit 3]]) -> share a n = false.
+Proof. exact w_fresh. Qed.
+Example C07_ex_mixed_is_old : In (FnCall [Feed 1%N; Mem 1%N]) (skels_of w_old (p_outs w_old)).
+Proof. exact w_is_old. Qed.
+Example C07_ex_mixed_distinct : NoDup (voice_skels w_old).
+Proof. exact w_old_distinct. Qed.
+(* b(2) (old channel 1: 0,2,4,6,8,10) continues on new channel 0 with 6,8,10; the added voice c starts from zero state *)
+Example C07_ex_mixed_run :
+  plan (published_skeleton (compiled w_old)) (published_skeleton (compiled w_new)) = Some (11%N, [mkPatch 5 0 2]) /\
+  map (chan 1) (outs_of (mach_run VmD w_old (compiled w_old) 0 [[];[];[];[];[];[]] m0))
+    = [Some 0; Some 2; Some 4; Some 6; Some 8; Some 10]%Z /\
+  option_map (fun r => (map (chan 0) (outs_of r), map (chan 1) (outs_of r)))
+             (swap_run VmD w_old (compiled w_old) w_new (compiled w_new) [[];[];[]] [[];[];[]])
+    = Some ([Some 6; Some 8; Some 10], [Some 0; Some 3; Some 3])%Z.
+Proof. exact w_swap_run. Qed.
